@@ -879,7 +879,7 @@ func (s *Slice) TryFuse(node *NodeInfo, err error) {
 		return
 	}
 
-	now := time.Now()
+	now := nowFn()
 	if !node.FuseStrategy.Trigger(now.Unix()) {
 		return
 	}
